@@ -35,6 +35,17 @@ def translate(chk):
         except Declined as e:
             out[name] = None
             st[name] = f"declined: {e}"
+    out["npw_detail"] = ""
+    if out["npw"] is not None:
+        out["npw"], out["npw_detail"] = out["npw"]
+        st["npw"] = ("forced checkpoint unconditional: " if out["npw"] else "forced checkpoint CONDITIONAL: ") + out["npw_detail"]
+    try:
+        out["seeding"] = c13_handler.resume_seeding()
+        st["resume_seeding"] = (f"{len(out['seeding'][1])} seeding call(s) reachable from the resume path" +
+                                "".join(f"; {r[0]}:{r[2]} in {r[1]}: {r[3]}" for r in out["seeding"][1]))
+    except Declined as e:
+        out["seeding"] = None
+        st["resume_seeding"] = f"declined: {e}"
     if out["line_map"]:
         st["line_map"] = "translated: " + out["line_map"]["coq"]
     if out["handler"]:
@@ -124,7 +135,7 @@ def today(chk, tr):
         ok, _, err = chk.coq_run("today_handler", txt)
         chk.oblige("today: handler_ok (regenerated safe_exit / terminate_run: one forced checkpoint that "
                    "reaches the dump, then exit with the configured code) + instantiated handler_sound", "today", ok,
-                   (err or "") + "\n" + tr["handler"][0])
+                   (err or "") + "\n" + tr["handler"][0] + "; BaseNestedSampler.checkpoint(periodic=False): " + tr["npw_detail"])
     else:
         chk.oblige("today: handler_ok (regenerated safe_exit / terminate_run) - CANNOT BE EVALUATED", "today", False,
                    f"translator: handler {chk.translator.get('handler')}; forced checkpoint branch {chk.translator.get('npw')}")
@@ -139,26 +150,34 @@ def today(chk, tr):
     else:
         chk.oblige("today: ins_ckpt_ok (regenerated ImportanceNestedSampler.checkpoint) - CANNOT BE EVALUATED", "today", False,
                    str(chk.translator.get("ins")))
-    if tr.get("interceptors") is not None and tr["handler"] and tr["npw"] is not None:
+    if tr.get("interceptors") is not None:
         import c13_handler
         rows = tr["interceptors"]
         bad = [r for r in rows if c13_handler.intercepts(r)]
-        txt = HDR + f"Definition h_now : list heff := {tr['handler'][0]}.\n"
-        txt += f"Definition x_now : list xentry := {c13_handler.interceptors_coq(rows)}.\n"
+        txt = HDR + f"Definition x_now : list xentry := {c13_handler.interceptors_coq(rows)}.\n"
         txt += "Lemma today : no_swallow x_now = true.\nProof. vm_compute. reflexivity. Qed.\n"
-        txt += f"Lemma today_h : handler_ok {cB(tr['npw'])} h_now = true.\nProof. vm_compute. reflexivity. Qed.\n"
-        txt += ("Lemma today_property : forall (S : Type) (cur : S) conf other (w : hworld S) path, exit_code w = None ->\n"
-                "  incl path x_now ->\n"
-                f"  process_exit (hrun cur conf other {cB(tr['npw'])} h_now w) path = Some conf\n"
-                f"  /\\ written (hrun cur conf other {cB(tr['npw'])} h_now w) = written w ++ [cur].\n"
-                f"Proof. intros S cur conf other w path E I. exact (exit_reaches_top cur conf other h_now w {cB(tr['npw'])} x_now path today_h E today I). Qed.\n")
+        txt += ("Lemma today_property : forall path, incl path x_now -> forall d, propagate path d = Exits.\n"
+                "Proof. exact (no_swallow_sound x_now today). Qed.\n")
         ok, _, err = chk.coq_run("today_exit_path", txt)
         chk.oblige(f"today: no_swallow (none of the {len(rows)} regenerated try/except, finally-return, suppress constructs "
-                   "of the package intercepts the SystemExit the handler raises) + instantiated exit_reaches_top", "today", ok,
+                   "of the package intercepts the SystemExit the handler raises) + instantiated no_swallow_sound", "today", ok,
                    (err or "") + " intercepting: " + "; ".join(f"{r[0]}:{r[1]} in {r[2]} ({r[3]}, guarded lines {r[5]}-{r[6]})" for r in bad))
     else:
         chk.oblige("today: no_swallow (constructs that can intercept SystemExit) - CANNOT BE EVALUATED", "today", False,
                    str(chk.translator.get("exit_interceptors")))
+    if tr.get("seeding") is not None:
+        txt = HDR + f"Definition seeds_now : list seedcall := {tr['seeding'][0]}.\n"
+        txt += "Lemma today : resume_seed_ok seeds_now = true.\nProof. vm_compute. reflexivity. Qed.\n"
+        txt += ("Lemma today_property : forall (A : Type) (pool : nat * nat -> list A) h, (forall k, NoDup (pool k)) ->\n"
+                "  (forall k k' x, k <> k' -> In x (pool k) -> In x (pool k') -> False) -> NoDup (offered pool (reseeds seeds_now) h).\n"
+                "Proof. intros A pool h. exact (resume_seed_sound seeds_now pool h today). Qed.\n")
+        ok, _, err = chk.coq_run("today_resume_seeding", txt)
+        chk.oblige("today: resume_seed_ok (no call that seeds numpy / torch / random is reachable from resume, "
+                   "resume_from_pickled_sampler, _resume_from_*, __setstate__, check_resume) + instantiated resume_seed_sound",
+                   "today", ok, (err or "") + " seeding calls: " + "; ".join(f"{r[0]}:{r[2]} in {r[1]}: {r[3]}" for r in tr["seeding"][1]))
+    else:
+        chk.oblige("today: resume_seed_ok (seeding calls on the resume path) - CANNOT BE EVALUATED", "today", False,
+                   str(chk.translator.get("resume_seeding")))
     if tr.get("regs"):
         txt = HDR + f"Definition regs_now : list reg := {tr['regs'][0]}.\n"
         txt += "Lemma today : regs_ok regs_now = true.\nProof. vm_compute. reflexivity. Qed.\n"
@@ -272,6 +291,32 @@ def build_tasks(chk, tr):
             tasks.append({"sampler": "standard", "phase": "registered-handler", "func": "NestedSampler.consume_sample",
                           "lineno": ln, "text": txt, "occ": occ, "after": 7, "real_signal": True, "signum": sg,
                           "prior_samplers": npri})
+    # --- histories with SEVERAL signals in one run: signal, resume, signal, resume, [signal, resume,] finish ---------
+    for ln, txt, occ in first:
+        base = {"sampler": "standard", "func": "NestedSampler.consume_sample", "lineno": ln, "text": txt, "occ": occ}
+        # uninformed phase only (rejection sampling from the prior, pool = nlive points, refilled often)
+        hist = [(12, [25])] if quick else [(12, [25]), (8, [15, 30]), (20, [20]), (30, [10, 10])]
+        for a0, rest in hist:
+            tasks.append(dict(base, phase="twice-uninformed", rejection=True, uninformed_only=True, after=a0,
+                              then=[{"after": a} for a in rest]))
+        for a0, rest in ([(45, [12])] if quick else [(45, [12]), (42, [10, 10]), (20, [30])]):
+            tasks.append(dict(base, phase="twice-flow", after=a0, then=[{"after": a} for a in rest]))
+        # a second real signal while the handler of the first one is pickling the sampler (Ctrl-C twice)
+        for s1, s2 in ([("SIGTERM", "SIGINT")] if quick else [("SIGTERM", "SIGINT"), ("SIGINT", "SIGINT"), ("SIGALRM", "SIGTERM")]):
+            tasks.append(dict(base, phase="second-signal", after=7, real_signal=True, signum=s1, second_signal=s2))
+    # a signal that arrives while a PERIODIC checkpoint is being pickled (inside the Python-level __getstate__)
+    gs = [("BaseNestedSampler", "__getstate__", "nessai/samplers/base.py")]
+    if not quick:
+        gs.append(("FlowProposal", "__getstate__", "nessai/proposal/flowproposal.py"))
+    for cls, fn, rel in gs:
+        ls = lines(rel, cls, fn)
+        for ln, txt, occ in (ls[:1] if quick else ls):
+            for real in ((False, True) if (ln, txt, occ) == ls[0] else (False,)):
+                t = {"sampler": "standard", "phase": "in-checkpoint", "func": f"{cls}.{fn}", "lineno": ln, "text": txt,
+                     "occ": occ, "after": 7 if cls == "BaseNestedSampler" else 45, "ckpt_interval": 5}
+                if real:
+                    t.update(real_signal=True, signum="SIGTERM")
+                tasks.append(t)
     # importance sampler: every statement of the loop body, at the second (and later) iteration
     ins_lines = lines(SRC_INS, "ImportanceNestedSampler", "nested_sampling_loop", only_loop_body=True)
     if quick:
@@ -339,7 +384,28 @@ def verdict_standard(o):
         return bad
     if ck and f.get("resumed_iteration") != ck["iteration"]:
         bad.append(f"resumed at iteration {f.get('resumed_iteration')}, the checkpoint was written at iteration {ck['iteration']}")
+    # every signal of the history: exit code, the checkpoint continues the previous one, live set sane
+    prev = None
+    for stg in o.get("stages") or []:
+        if not stg.get("reached"):
+            continue
+        if stg.get("exit") != EXIT_CODE and stg["stage"] < len(o["stages"]) - 1:
+            bad.append(f"signal {stg['stage'] + 1} of the history: exit code {stg.get('exit')}, configured {EXIT_CODE}")
+        if prev is not None and stg.get("started_at") != prev:
+            bad.append(f"after signal {stg['stage']} the run resumed at iteration {stg.get('started_at')}, its checkpoint was "
+                       f"written at iteration {prev}")
+        lv = stg.get("ckpt_live")
+        if lv is not None and len(o["stages"]) > 1:
+            if len(set(lv)) != len(lv):
+                bad.append(f"checkpoint of signal {stg['stage'] + 1}: {len(lv) - len(set(lv))} duplicated point(s) in the live set")
+            both = set(lv) & set(stg.get("ckpt_dead") or [])
+            if both:
+                bad.append(f"checkpoint of signal {stg['stage'] + 1}: {len(both)} point(s) both live and recorded")
+        prev = stg.get("ckpt_iteration")
     ids = f["ids"]
+    lv = f.get("live_ids")
+    if lv is not None and (len(set(lv)) != len(lv) or set(lv) & set(ids)):
+        bad.append("the final live set has duplicated points or points that are also recorded")
     if len(set(ids)) != len(ids):
         bad.append(f"{len(ids) - len(set(ids))} nested sample(s) recorded twice after resume")
     if f["finalised"] and f["n_ns"] != f["iteration"] + f["nlive"]:
@@ -393,6 +459,10 @@ def failure_key(o, d, stmts):
     if o.get("exit") != EXIT_CODE:
         return "C13:standard:exit-code"
     t = o["task"]
+    if t.get("second_signal"):
+        return "C13:standard:unsafe:second-signal-while-the-handler-is-checkpointing"
+    if t.get("then"):
+        return f"C13:standard:unsafe:history-of-{1 + len(t['then'])}-signals:{t['phase']}"
     so = statement_of(o, stmts)
     if so is not None:
         mode, fn, txt = so
@@ -407,7 +477,9 @@ def run(chk):
                 "handler) before the first line of every statement of consume_sample / insert_live_point / yield_sample "
                 "(thorough: also check_state, update_state, train_proposal, the loop, state.increment, the proposals' "
                 "draw/populate, finalise) in the uninformed and the flow phase, and before every statement of the importance "
-                "sampler's loop body; the process exits, a fresh process resumes and finishes; non-trivial = the line was "
+                "sampler's loop body; also histories with two / three signals in one run (uninformed-only and flow), a signal "
+                "inside __getstate__ while a periodic checkpoint is pickled, a second real signal while the first handler is "
+                "pickling; the process exits, a fresh process resumes and finishes; non-trivial = the line was "
                 "reached and the checkpoint differs from the state at the start of the iteration or lies inside a callee; "
                 "distinct by (sampler, phase, function, statement text)")
     chk.assumptions += [
@@ -467,8 +539,8 @@ def run(chk):
             unsafe_keys.add(key)
             chk.fail(key, f"standard sampler ({t['phase']}, call {inj.get('calls')}), signal before `{t['text']}` in "
                           f"{t['func']}: " + "; ".join(bad), {"task": t, "failure_key": key})
-        if d is None:
-            continue
+        if d is None or t.get("then") or t.get("second_signal"):
+            continue   # histories of several signals are judged by the run predicate, not by the one-iteration model
         ck = o.get("checkpoint") or {}
         if ck.get("finalised") or "finalise" in (inj.get("stack") or []):
             continue   # after / inside finalise the six-field summary of ONE replacement does not apply
